@@ -134,3 +134,40 @@ Proof.
     destruct T as (A1 & A2 & A3 & A4).
     apply m_load_rows_total; cbn [r_src r_pos]; rewrite A1, A4, B1; subst r0; cbn [r_src] in *; lia.
 Qed.
+
+(* ---------- a request program per row (C03): total on every text ---------- *)
+Lemma m_load_hist_total sep : forall fuel progs r acc,
+  (r_pos r <= length (r_src r))%nat -> (length (r_src r) - r_pos r < fuel)%nat ->
+  clean (m_load_hist fuel sep progs r acc).
+Proof.
+  induction fuel as [|fuel IH]; intros progs r acc Hp Hf; [lia|].
+  cbn [m_load_hist]. destruct (m_is_end r) eqn:He; [exact I|].
+  unfold m_parse_next_row.
+  destruct (m_parse_next_line_total sep r He) as (r1 & E & B1 & B2 & B3 & B4). rewrite E.
+  cbn [andb negb].
+  destruct (negb (Nat.eqb (length (r_headers r1)) (length (r_metas r1)))) eqn:Ew; [exact I|].
+  apply negb_false_iff, Nat.eqb_eq in Ew.
+  match goal with |- context [m_read_keys ?rr _ []] => set (r2 := rr) end.
+  pose proof (m_read_keys_total (hd [] progs) r2 []) as T.
+  assert (Hl2 : length (r_headers r2) = length (r_metas r2)) by (subst r2; exact Ew).
+  specialize (T Hl2).
+  destruct (m_read_keys r2 (hd [] progs) []) as [[cells r3]|[]| | |]; try contradiction; try exact I.
+  destruct T as (A1 & A2 & A3 & A4). subst r2. cbn [r_src r_pos] in *.
+  apply IH; rewrite A1, A4, B1; lia.
+Qed.
+
+Theorem csv_load_hist_total sep progs text : clean (csv_load_hist sep progs text).
+Proof.
+  unfold csv_load_hist. destruct (negb (validate_separator sep)); [exact I|].
+  unfold m_new.
+  set (r0 := mkM text [] [] 0 0 0 0 0).
+  destruct (m_is_end r0) eqn:He.
+  - unfold m_parse_next_line. rewrite He. exact I.
+  - destruct (m_parse_next_line_total sep r0 He) as (r1 & E & B1 & B2 & B3 & B4). rewrite E.
+    pose proof (m_read_headers_total (length (r_metas r1)) r1 []) as T.
+    assert (H1 : (length (r_metas r1) + r_validx r1 <= length (r_metas r1))%nat) by (rewrite B4; subst r0; cbn; lia).
+    specialize (T H1).
+    destruct (m_read_headers (length (r_metas r1)) r1 []) as [[hs r2]|[]| | |]; try contradiction; try exact I.
+    destruct T as (A1 & A2 & A3 & A4).
+    apply m_load_hist_total; cbn [r_src r_pos]; rewrite A1, A4, B1; subst r0; cbn [r_src] in *; lia.
+Qed.
